@@ -66,6 +66,11 @@ CHECKS = {
          "Every string up to length 5 (quick) / 6 (thorough) over 28 class-representative bytes, every continuation up to length 4/5 behind 13 prefixes that put each data reader at offset 0, ~20k grammar derivations with all white-space placements and ~1M single-point corruptions. Well-formed inputs must be tokenized into exactly the 488.2 elements with exact byte ranges (and, where the headers exist, run successfully with handlers seeing exactly those data elements); inputs in a listed violation class must be refused with a command error by the tokenizer (lexical classes) or by Node::run (structural classes); everything else is not judged.",
          "Trusted: refmodel/lex488.rs (~450 lines from 488.2 7.3-7.7, self-checked on accept/reject/unspecified tables). White space representatives SP/TAB; inputs the standard or the property leave open are classified unspecified (counted in the evidence).",
          "DESIGN.md section 5 (C04)"),
+ "C01": ("exploration",
+         "exhaustive enumeration of all strings up to length n over one byte per lexical class x tree shapes x handler plans (incl. every typed conversion of every pulled token), contextual continuations and direct list-expression sweeps, under both build profiles, with per-case panic capture, watchdog and crash journal",
+         "Every string up to length 4 (quick) / 5 (thorough) over 28 class-representative bytes against 3 tree shapes x 5 handler plans, every continuation up to length 4/5 behind 15 prefixes that place each data reader (block, string, expression, channel list, non-decimal, suffix) at offset 0, and every string up to length 5/7 over the list alphabet through the channel-list and numeric-list iterators, spec iteration and all six tuple conversions. Each case must return normally with Ok or a SCPI error other than -300 'Internal parser error'; panics are caught per case, non-termination by a watchdog, process death by the ./check wrapper from a per-chunk journal. Run under release and under debug-assertions + overflow-checks.",
+         "Trusted: catch_unwind/watchdog machinery; the class-representative alphabet (readers branch on class membership and on block length digits 0/1/9). Strings longer than the bound are covered only behind the listed prefixes.",
+         "DESIGN.md section 5 (C01)"),
 }
 
 NOT_YET = "check not built yet (planned: DESIGN.md section 5 describes the bounded exhaustive exploration that will decide it)"
